@@ -76,6 +76,19 @@ def run(ctx):
                       "args": {"ops": c["ops"], "attrs": attrs, "nice": ctx.rng.choice(["none", "true", "list", "dict"])}})
     if not cases:
         raise core.MachineryFailure("Export emitted no histories")
+    # longer behaviours straight from the specification (TLC simulation mode)
+    sim = ctx.tlc("Export", {"MaxOps": 9, "Fault": "none", "EmitCases": True}, invariants=["EmitCase"], workers=1,
+                  count=False, simulate="num=%d" % (1500 if thorough else 150), depth=11)
+    seen_sim = set()
+    for c in sim.cases:
+        key = core.json.dumps(c, sort_keys=True)
+        if key in seen_sim:
+            continue
+        seen_sim.add(key)
+        attrs = pick_attrs(ctx.rng, full=(len(seen_sim) % 4 == 0), with_unknown=(len(seen_sim) % 5 == 1))
+        cases.append({"id": "m%d" % len(seen_sim), "kind": "c19_file", "abs": {},
+                      "args": {"ops": c["ops"], "attrs": attrs, "nice": ctx.rng.choice(["none", "true", "list", "dict"])}})
+    ctx.notes["simulated_behaviours"] = len(seen_sim)
     ctx.exhaustive = not thorough
     k = 0
     for rep in range(40 if thorough else 8):
